@@ -138,7 +138,7 @@ theorem stepLocal_frame (F : Flags) (o : Obs) (x : Act) (ev : Ev) (y : Act) (eff
     (h : stepLocal F o x ev = some (y, eff)) :
     y.kids = x.kids ∧ y.def_ = x.def_ ∧ y.kind = x.kind ∧ y.task = x.task ∧ y.indirect = x.indirect := by
   step_local_cases h
-  all_goals (simp [Act.stop]; done)
+  all_goals (simp [Act.stop, Act.stopDeps]; done)
 
 /-- there is no transition out of `done` -/
 theorem stepLocal_not_done (F : Flags) (o : Obs) (x : Act) (ev : Ev) (y : Act) (eff : Eff)
@@ -157,6 +157,13 @@ theorem stepLocal_exFin (F : Flags) (o : Obs) (x : Act) (ev : Ev) (y : Act) (eff
   all_goals (simp_all [exFin]; done)
 
 set_option maxHeartbeats 1000000 in
+/-- … and so is what its execution ended with (the value the waiters take) -/
+theorem stepLocal_exFin_out (F : Flags) (o : Obs) (x : Act) (ev : Ev) (y : Act) (eff : Eff)
+    (h : stepLocal F o x ev = some (y, eff)) (hf : exFin x.phase = true) : y.out = x.out := by
+  step_local_cases h
+  all_goals (simp_all [exFin]; done)
+
+set_option maxHeartbeats 1000000 in
 /-- `key` is set exactly by `register k`, which is accepted only from `acquired`, for a
 deduplicated task, when `k` is not registered yet; its effect is `reg k` -/
 theorem stepLocal_key (F : Flags) (o : Obs) (x : Act) (ev : Ev) (y : Act) (eff : Eff)
@@ -166,7 +173,7 @@ theorem stepLocal_key (F : Flags) (o : Obs) (x : Act) (ev : Ev) (y : Act) (eff :
       x.def_.run ≠ .always ∧ x.phase = .acquired ∧ y.phase = .exec) := by
   step_local_cases h
   all_goals (first
-    | (left; simp [Act.stop]; done)
+    | (left; simp [Act.stop, Act.stopDeps]; done)
     | (right; simp_all; done))
 
 set_option maxHeartbeats 1000000 in
@@ -179,7 +186,7 @@ theorem stepLocal_waitsFor (F : Flags) (o : Obs) (x : Act) (ev : Ev) (y : Act) (
       x.def_.run ≠ .always ∧ x.phase = .acquired ∧ y.phase = .wWaiting) := by
   step_local_cases h
   all_goals (first
-    | (left; simp [Act.stop]; done)
+    | (left; simp [Act.stop, Act.stopDeps]; done)
     | (right; simp_all; done))
 
 /-- the phases `next`, `fail`, `stop`, `afterCmd`, `afterDefer` can produce -/
